@@ -32,7 +32,16 @@ def dimension_of(fn: FuncInfo, e: ast.expr, assigns, depth=0) -> str:
     if isinstance(e, ast.Name):
         vals = assigns.get(e.id, [])
         res = {dimension_of(fn, v, assigns, depth + 1) for v in vals}
+        if res == {"T", "T1"}:
+            # `xs = list(self._template)` for several templates and `xs = [self._template]` for a single one, selected by a test on the template count:
+            # in both cases iterating xs enumerates the T templates in order
+            singles = [v for v in vals if dimension_of(fn, v, assigns, depth + 1) == "T1"]
+            guarded = all(any(isinstance(i, ast.If) and "_n_templates" in norm_src(i.test) and any(x is v for x in ast.walk(i)) for i in walk_no_nested(fn.node))
+                          for v in singles)
+            return "T" if guarded else "?"
         return res.pop() if len(res) == 1 else "?"
+    if isinstance(e, (ast.List, ast.Tuple)) and len(e.elts) == 1 and norm_src(e.elts[0]) in ("self._template", "self.template"):
+        return "T1"
     if isinstance(e, (ast.ListComp, ast.GeneratorExp)) and len(e.generators) == 1 and not e.generators[0].ifs:
         return dimension_of(fn, e.generators[0].iter, assigns, depth + 1)
     if isinstance(e, ast.Call):
